@@ -279,22 +279,6 @@ func (u *Unit) writesOfCall(c *ssa.CallCommon, w *writeSet) {
 // lookupVar resolves a source-level variable name at the given program point.
 // at: block whose entry dominates the use; edgeFrom: when evaluating on a back edge of loop li.
 func (f *Frame) lookupVar(name string, st *state, li *loopInfo, edgeFrom *ssa.BasicBlock) (Val, bool) {
-	for i, p := range f.fn.Params {
-		if p.Name() == name {
-			if i < len(f.params) {
-				return f.params[i], true
-			}
-			return f.vals[p], true
-		}
-	}
-	for i, fv := range f.fn.FreeVars {
-		if fv.Name() == name {
-			cell := f.free[i]
-			elem := fv.Type().(*types.Pointer).Elem()
-			env := &Env{u: f.u, st: st}
-			return env.loadAt(cell.S[0], elem, "elem"), true
-		}
-	}
 	if li != nil {
 		for l := li; l != nil; l = nil {
 			for _, ins := range l.header.Instrs {
@@ -371,6 +355,23 @@ func (f *Frame) lookupVar(name string, st *state, li *loopInfo, edgeFrom *ssa.Ba
 			return env.loadAt(v.S[0], elem, v.Hint), true
 		}
 		return v, true
+	}
+	// never reassigned before this point: the parameter or captured variable itself
+	for i, p := range f.fn.Params {
+		if p.Name() == name {
+			if i < len(f.params) {
+				return f.params[i], true
+			}
+			return f.vals[p], true
+		}
+	}
+	for i, fv := range f.fn.FreeVars {
+		if fv.Name() == name {
+			cell := f.free[i]
+			elem := fv.Type().(*types.Pointer).Elem()
+			env := &Env{u: f.u, st: st}
+			return env.loadAt(cell.S[0], elem, "elem"), true
+		}
 	}
 	return Val{}, false
 }
